@@ -34,7 +34,11 @@ Brackets == { Call(Id0("tolower"), <<E>>), Call(Id0("concat"), <<E, one>>),
               Coll(Id0("c"), "any", Lam(Id0("x"), E)), Coll(Attr(a, "q"), "all", Lam(Id0("x"), E)) }
 OpsUsed == IF Profile = "ops" THEN BinOps \ {"in"} ELSE {"or", "eq", "lt", "add", "mul"}
 ListRHS == IF Profile = "ops" THEN { Lst(<<one>>) } ELSE { Lst(<<one>>), Lst(<<a, one>>) }
+\* operands that are grouped on BOTH sides (the rendering starts with "(" and ends with ")" without being one group)
+BothSides == { Bool("and", Bool("or", E, one), Bool("or", one, a)), Bin("mul", Bin("add", E, one), Bin("add", one, a)),
+               Bin("sub", Bin("add", E, one), Call(Id0("length"), <<a>>)), Bin("mod", Bin("sub", a, E), Lst(<<one, a>>)) }
 Expand(s) == { <<0, x>> : x \in Atoms }
+       \cup { <<1, x>> : x \in BothSides }
        \cup { <<1, BinNode(o, E, E)>> : o \in OpsUsed }
        \cup { <<1, Cmp("in", E, r)>> : r \in ListRHS }
        \cup { <<1, Un(o, E)>> : o \in PreOps }
